@@ -11,6 +11,7 @@ import Ark.Proofs.Lock
 import Ark.Proofs.Rejects
 import Ark.Generated.FactsLock
 import Ark.Props.C07Hist
+import Ark.Props.C07Batch
 
 namespace Ark.Props.C07
 open Ark Ark.Lock
@@ -314,5 +315,30 @@ theorem hist_frozen_while_open : type_of% @Ark.Props.C07Hist.frozen_while_open :
 
 /-- the rows an open cursor still has to visit are a suffix of the rows expected when it was opened -/
 theorem hist_cursor_frozen : type_of% @Ark.Props.C07Hist.cursor_frozen := @Ark.Props.C07Hist.cursor_frozen
+
+
+/-! ### A failing batch does not leave the world locked (Props/C07Batch; repair D27) -/
+
+/-- AddBatch/RemoveBatch/ExchangeBatch: for ANY unlocked world and any arguments (observers, callback, relations allowed, no invariant assumed) a panic of the planning loop is the batch's panic, and the resulting world has the lock, the observers and the log of the world before the call — it is not locked -/
+theorem batch_exchangeBatch_lookup_panic_lock : type_of% @Ark.Props.C07Batch.exchangeBatch_lookup_panic_lock := @Ark.Props.C07Batch.exchangeBatch_lookup_panic_lock
+
+/-- the same for SetRelationsBatch -/
+theorem batch_setRelationsBatch_lookup_panic_lock : type_of% @Ark.Props.C07Batch.setRelationsBatch_lookup_panic_lock := @Ark.Props.C07Batch.setRelationsBatch_lookup_panic_lock
+
+/-- the plan-first normal form of the exchange batch: selection, lookup, Lock, move, Unlock -/
+theorem batch_exchangeBatch_planFirst : type_of% @Ark.Props.C07Batch.exchangeBatch_planFirst := @Ark.Props.C07Batch.exchangeBatch_planFirst
+
+/-- the plan-first normal form of SetRelationsBatch -/
+theorem batch_setRelationsBatch_planFirst : type_of% @Ark.Props.C07Batch.setRelationsBatch_planFirst := @Ark.Props.C07Batch.setRelationsBatch_planFirst
+
+/-- from the batch theorems' invariant: if an exchange batch without relations panics, the world is unlocked with the lock state of before, every entity keeps components and values, liveness, pool, log and observers are the same and the invariant still holds -/
+theorem batch_exchangeBatch_panic_unlocked : type_of% @Ark.Props.C07Batch.exchangeBatch_panic_unlocked := @Ark.Props.C07Batch.exchangeBatch_panic_unlocked
+
+/-- the same over relation tables: every entity keeps components, values and relation targets -/
+theorem batch_exchangeBatch_rel_panic_unlocked : type_of% @Ark.Props.C07Batch.exchangeBatch_rel_panic_unlocked := @Ark.Props.C07Batch.exchangeBatch_rel_panic_unlocked
+
+/-- the same for SetRelationsBatch -/
+theorem batch_setRelationsBatch_panic_unlocked : type_of% @Ark.Props.C07Batch.setRelationsBatch_panic_unlocked := @Ark.Props.C07Batch.setRelationsBatch_panic_unlocked
+
 
 end Ark.Props.C07
